@@ -73,6 +73,22 @@ func oracleC10(c *CaseBytes) *Failure {
 	if delta > bound {
 		return failf("C10/"+c.Type+"/alloc", "Decode of %d input bytes %s allocated %d bytes (bound %d = 32 KiB + 64 x input length)", len(c.W), hexClip(c.W), delta, bound)
 	}
+	if len(c.Twin) > 0 {
+		// metamorphic: W differs from Twin only in overstating a count/length. Claiming more must not cost memory
+		// beyond what the bytes present justify: alloc(W) <= alloc(Twin) + 32 KiB + 24 x len(W)
+		// (24 x len covers a result slice pre-sized by the number of bytes still unread)
+		obj2 := regByName[c.Type].New()
+		b2 := bytes.NewBuffer(append([]byte{}, c.Twin...))
+		runtime.ReadMemStats(&memA)
+		_, pan2, _ := safely(func() error { return DecodeAny(obj2, b2) })
+		runtime.ReadMemStats(&memB)
+		if pan2 == nil {
+			twin := memB.TotalAlloc - memA.TotalAlloc
+			if delta > twin+uint64(allocA)+24*uint64(len(c.W)) {
+				return failf("C10/"+c.Type+"/alloc-by-claim", "%d input bytes with an overstated count/length allocated %d bytes; the same bytes with the truthful prefix allocate %d (allowed difference 32 KiB + 24 x input length = %d)", len(c.W), delta, twin, allocA+24*len(c.W))
+			}
+		}
+	}
 	return nil
 }
 
@@ -158,7 +174,11 @@ func genHostile(rt *rapid.T, tn string, maxSize int, hint int) (*CaseBytes, []st
 		v, _ := GenValue(rt, tn, o)
 		r := Render(v, &RenderOpts{Spans: true})
 		w, kind, over := mutateHostile(rt, r, ts.LE, hint)
-		return &CaseBytes{Type: tn, W: w}, []string{"mutated:" + kind}, over
+		cb := &CaseBytes{Type: tn, W: w}
+		if kind == "prefix" && over && len(w) == len(r.Bytes) {
+			cb.Twin = r.Bytes
+		}
+		return cb, []string{"mutated:" + kind}, over
 	}
 }
 
@@ -202,6 +222,63 @@ func runHostile(t *testing.T, prop, check string, oracle func(*CaseBytes) *Failu
 			}
 		}
 		Col.MarkExhaustive("every count/length prefix of every type (all registered keys of frames/extended messages) set to max, max-1, 0x7ffffff0, 0x80000000, 0x00ffffff and every 2^k, 2^k+1, 3*2^(k-1), 7*2^(k-2) >= 256, with <=16 bytes following")
+	})
+	// (1a) every list of every type with 2000 real elements present and the count overstated (max, 2n, n+1000):
+	// the bytes present are many, the claim is larger still
+	t.Run("biglists-overstated", func(t *testing.T) {
+		for _, tn := range MyTypes() {
+			ts := Types[tn]
+			for fi, f := range ts.Fields {
+				switch f.Kind {
+				case "numlist", "fixtextlist", "textlist", "objlist":
+				default:
+					continue
+				}
+				const n = 2000
+				if uint64(n) >= NMask(f.Count) {
+					continue
+				}
+				v := Skeleton(tn, 0)
+				x := &v.F[fi]
+				switch f.Kind {
+				case "numlist":
+					x.NL = make([]uint64, n)
+					for j := range x.NL {
+						x.NL[j] = uint64(j) & NMask(f.NType)
+					}
+				case "fixtextlist", "textlist":
+					x.TL = make([]HexBytes, n)
+					for j := range x.TL {
+						x.TL[j] = HexBytes("e")
+					}
+				case "objlist":
+					e := x.OL[0]
+					x.OL = make([]*Value, n)
+					for j := range x.OL {
+						x.OL[j] = e
+					}
+				}
+				r := Render(v, &RenderOpts{Spans: true})
+				for _, sp := range r.Spans {
+					if sp.Kind != "count" || sp.Path != "$."+f.Go {
+						continue
+					}
+					for _, nv := range []uint64{sp.Max, 2 * n, n + 1000} {
+						if nv > sp.Max {
+							continue
+						}
+						w := append([]byte{}, r.Bytes...)
+						copy(w[sp.Off:], putUint(nil, nv, sp.Len, ts.LE))
+						c := &CaseBytes{Type: tn, W: w, Twin: r.Bytes}
+						hostileRecord(prop, c, []string{"enumerated-big-list-overstated"}, true)
+						if !Direct(t, prop, check, fmt.Sprintf("biglist/%s.%s/%d", tn, f.Go, nv), c, oracle) {
+							break
+						}
+					}
+				}
+			}
+		}
+		Col.MarkExhaustive("every list field of every type with 2000 elements present and its count overstated (max, 4000, 3000), compared with the truthful message")
 	})
 	// (1b) every discriminator of every holder type overwritten with blank / zero / 0xff / near-miss values
 	t.Run("discriminators", func(t *testing.T) {
